@@ -579,22 +579,36 @@ var rR13 = RuleRef{Name: "R13", Doc: "reply-kind provenance: line-framed reply c
 		hdr, payload := false, false
 		for _, b := range fn.Blocks {
 			for _, in := range b.Instrs {
-				switch x := in.(type) {
-				case *ssa.Call:
-					if cf := callee(x); cf != nil && cf.Pkg != nil && cf.Pkg.Pkg.Path() == "strconv" && (cf.Name() == "Itoa" || cf.Name() == "FormatInt") {
-						arg := x.Call.Args[0]
-						if cv, ok := arg.(*ssa.Convert); ok {
-							arg = cv.X
-						}
-						if ln, ok := isBuiltinCall(arg, "len"); ok && canon(ln.Call.Args[0]) == "r.data" {
-							hdr = true
+				// header: some strconv formatting of len(r.data); payload: r.data used as data (not only len / nil test)
+				if call, ok := in.(*ssa.Call); ok {
+					if cf := callee(call); cf != nil && cf.Pkg != nil && cf.Pkg.Pkg.Path() == "strconv" {
+						for _, arg := range call.Call.Args {
+							if cv, ok := arg.(*ssa.Convert); ok {
+								arg = cv.X
+							}
+							if ln, ok := isBuiltinCall(arg, "len"); ok && canon(ln.Call.Args[0]) == "r.data" {
+								hdr = true
+							}
 						}
 					}
-					if ap, ok := isAppend(x); ok && len(ap.Call.Args) > 1 && canon(ap.Call.Args[1]) == "r.data" {
+				}
+				var rands [8]*ssa.Value
+				for _, op := range in.Operands(rands[:0]) {
+					if *op == nil || canon(*op) != "r.data" {
+						continue
+					}
+					if _, isLoad := (*op).(*ssa.UnOp); !isLoad {
+						continue
+					}
+					switch y := in.(type) {
+					case *ssa.BinOp:
+						_ = y // nil comparison
+					case *ssa.Call:
+						if bi, ok := y.Call.Value.(*ssa.Builtin); ok && bi.Name() == "len" {
+							continue
+						}
 						payload = true
-					}
-				case *ssa.Convert:
-					if canon(x.X) == "r.data" {
+					default:
 						payload = true
 					}
 				}
